@@ -5,7 +5,7 @@ import logging
 import os
 from dataclasses import dataclass, field
 
-from . import xltypes, reader, parser, tokenizer
+from . import xltypes, reader, parser, tokenizer, utils
 
 
 @dataclass
@@ -227,6 +227,11 @@ class ModelCompiler:
         for name in self.defined_names:
             cell_address = self.defined_names[name]
             cell_address = cell_address.replace('$', '')
+            # Cells and ranges are keyed by the plain sheet title, while the
+            # workbook quotes titles that need it ('My Sheet'!A1).
+            sheet_str, sep, coord = cell_address.rpartition('!')
+            if sep and ',' not in cell_address:
+                cell_address = utils.resolve_sheet(sheet_str) + sep + coord
 
             # a cell has an address like; Sheet1!A1
             if ':' not in cell_address:
